@@ -92,7 +92,7 @@ class RandomGen:
 
         def emit(op):
             pr = m.apply(op)
-            if op[0] in ('call', 'callx'):
+            if op[0] in ('call', 'callx', 'callu'):
                 # expectations that came or went inside the call (deferred operations of side effects)
                 reserved = {d[1] for d in m.deferred.values() if d[0] == 'exp'}
                 for eid in [x for x in exp_slot if x not in m.exps and x not in reserved]:
@@ -281,6 +281,13 @@ class RandomGen:
                 return gen_exp()
             if kind == 'call':
                 c = gen_call()
+                if c is not None and c[0] == 'call' and rng.random() < 0.07:
+                    # the same call from a destructor during stack unwinding - if it is accepted and returns normally
+                    cu = ('callu',) + c[1:]
+                    m2 = m.clone()
+                    m2.apply(cu)
+                    if not m2.illegal:
+                        return cu
                 if c is not None and m.deferred:
                     m2 = m.clone()
                     m2.apply(c)
@@ -291,14 +298,16 @@ class RandomGen:
                 if not m.exps:
                     return None
                 e = rng.choice(sorted(m.exps))
-                return ('rmexpx' if rng.random() < 0.12 else 'rmexp', e)
+                r = rng.random()
+                return ('rmexpx' if r < 0.12 else 'rmexpc' if r < 0.2 else 'rmexp', e)
             if kind == 'rmobj':
                 c = [o for o in m.objs if o not in nest_targets()]
                 if not pf['allow_cut']:
                     c = [o for o in c if not would_cut_rmobj(o)]
                 if not c:
                     return None
-                return ('rmobjx' if rng.random() < 0.1 else 'rmobj', rng.choice(c))
+                r = rng.random()
+                return ('rmobjx' if r < 0.1 else 'rmobjc' if r < 0.17 else 'rmobj', rng.choice(c))
             if kind == 'mvobj':
                 c = [o.id for o in m.objs.values() if o.kind in 'MWP']
                 if not c or len(m.objs) >= pf['max_obj'] + 1:
@@ -380,7 +389,7 @@ class RandomGen:
             raise ValueError(kind)
 
         def after(op):
-            if op[0] in ('rmexp', 'rmexpx'):
+            if op[0] in ('rmexp', 'rmexpx', 'rmexpc'):
                 k = exp_slot.pop(op[1], None)
                 if k:
                     if k[0] == 'site':
@@ -415,7 +424,8 @@ class RandomGen:
             if m.tracers:
                 c.append(('rmtr', m.tracers[-1][0]))
             for e in m.exps:
-                c.append(('rmexpx' if rng.random() < 0.08 else 'rmexp', e))
+                r = rng.random()
+                c.append(('rmexpx' if r < 0.08 else 'rmexpc' if r < 0.14 else 'rmexp', e))
             nt = nest_targets()
             for o in m.objs:
                 if o in nt:
@@ -431,7 +441,7 @@ class RandomGen:
                 break
             if not pf['hostile_teardown'] and rng.random() < 0.6:
                 # conventional order: expectations first
-                ce = [x for x in c if x[0] in ('rmexp', 'rmtr')]
+                ce = [x for x in c if x[0] in ('rmexp', 'rmexpx', 'rmexpc', 'rmtr')]
                 if ce:
                     c = ce
             op = rng.choice(c)
